@@ -387,6 +387,10 @@ fn csystem_case(n: usize, gi: usize, tol: f64, max_iter: usize, exact_jac: bool,
 /// wrong there, and a pivot search that mishandles a NEGATIVE diagonal entry with exact zeros below it (triangular T) produces NaN.
 /// kind 0: upper triangular cascade with a negative diagonal; 1: lower triangular; 2: the dense dominant matrix of the other families
 fn large_root_affine_case(n: usize, kind: usize, complex: bool, exact_jac: bool) -> Result<(), String> {
+    large_root_affine_case_at(n, kind, complex, exact_jac, 1.0, None)
+}
+/// `far` multiplies the roots (2^18: roots of size 4e8..3e9, beyond 2^27, where only a CONFIGURED difference step works: `delta`)
+fn large_root_affine_case_at(n: usize, kind: usize, complex: bool, exact_jac: bool, far: f64, delta: Option<f64>) -> Result<(), String> {
     let mut t = vec![vec![0.0f64; n]; n];
     for i in 0..n {
         for j in 0..n {
@@ -402,8 +406,8 @@ fn large_root_affine_case(n: usize, kind: usize, complex: bool, exact_jac: bool)
     if kind == 2 {
         t = dmat(n);
     }
-    let rr = [1536.0, -3000.0, 12288.0, -2048.0, 5120.0, -1792.0];
-    let ri = [1024.0, -512.0, 0.0, 4096.0, -2560.0, 768.0];
+    let rr: Vec<f64> = [1536.0, -3000.0, 12288.0, -2048.0, 5120.0, -1792.0].iter().map(|v| v * far).collect();
+    let ri: Vec<f64> = [1024.0, -512.0, 0.0, 4096.0, -2560.0, 768.0].iter().map(|v| v * far).collect();
     let tol = 1e-12;
     let max_iter = 8;
     if !complex {
@@ -422,6 +426,9 @@ fn large_root_affine_case(n: usize, kind: usize, complex: bool, exact_jac: bool)
         let mut nw = Newton::<Vec64>::new(Vector::create(x0));
         nw.tolerance(tol);
         nw.iterations(max_iter);
+        if let Some(d) = delta {
+            nw.delta(d);
+        }
         let res = if exact_jac { nw.solve_jacobian(&f, &jac) } else { nw.solve(&f) };
         match res {
             Ok(v) => {
@@ -457,6 +464,9 @@ fn large_root_affine_case(n: usize, kind: usize, complex: bool, exact_jac: bool)
         let mut nw = Newton::<Vector<Cmplx>>::new(Vector::create(x0));
         nw.tolerance(tol);
         nw.iterations(max_iter);
+        if let Some(d) = delta {
+            nw.delta(d);
+        }
         let res = if exact_jac { nw.solve_jacobian(&f, &jac) } else { nw.solve(&f) };
         match res {
             Ok(v) => {
@@ -1145,6 +1155,8 @@ fn main() {
             let (n, kind, var) = (1 + (idx / 12) as usize, ((idx / 4) % 3) as usize, idx % 4);
             acc.nontriv("system with roots of size >= 1.5e3");
             judge(acc, idx, || format!("large-root affine n={} kind={} complex={} supplied={}", n, kind, var >= 2, var % 2 == 1), || large_root_affine_case(n, kind, var >= 2, var % 2 == 1));
+            // roots beyond 2^27 with a configured step 2^-8 (the default 1e-8 is absorbed there - a known finding; a configured step must be used)
+            judge(acc, idx, || format!("far-root affine (delta = 2^-8) n={} kind={} complex={} supplied={}", n, kind, var >= 2, var % 2 == 1), || large_root_affine_case_at(n, kind, var >= 2, var % 2 == 1, 262144.0, Some(2f64.powi(-8))));
         },
     );
     let perc2 = (4 * TOLS.len() * ITERS.len() * 2) as u64;
